@@ -1,4 +1,95 @@
-/- Model driver for C06 (stub: not built yet). -/
+/-
+Model driver for C06 (chunking independence).  Ops mirror harness/c06.cpp:
+  opl <cuts> <hex>            -> "L <n> <hex>..."
+  pbf <cuts> <hex>            -> "F <n> <hdr>:<blob>... [err:<class>]"
+  o5m <cuts> <script> <hex>   -> "r<0|1>:<consumed>:<windowhex> ..."
+  o5mds <cuts> <hex>          -> dataset stream of the o5m loop: "D <n> <t>:<payload>|R|O<t> ... [err:<class>]"
+  xml <cuts> <hex>            -> the feed calls "X <n> <hex>:<0|1> ..."
+-/
+import Osmium.Model.Chunks
+import Osmium.Model.PbfFraming
 import Driver.Common
 
-def main : IO Unit := pure ()
+open Osmium.Chunks Osmium.Wire Driver
+
+def parseCuts (s : String) : Option (List Nat) :=
+  if s == "-" then some [] else (s.splitOn ",").mapM String.toNat?
+
+/-- same piece splitting as the harness: cuts must be ascending, inside (0, len) -/
+def splitPieces (data : Bytes) (cuts : List Nat) : List Bytes :=
+  let rec go (rem : Bytes) (last : Nat) (cuts : List Nat) (acc : List Bytes) : List Bytes :=
+    match cuts with
+    | [] => (if rem.isEmpty then acc else rem :: acc).reverse
+    | c :: cs =>
+      if c > last && c < last + rem.length then
+        go (rem.drop (c - last)) c cs (rem.take (c - last) :: acc)
+      else go rem last cs acc
+  go data 0 cuts []
+
+def pbfErrName : PbfErr → String
+  | .truncated => "err:truncated"
+  | .headerTooLarge => "err:header-too-large"
+  | .blobTooLarge => "err:blob-too-large"
+  | .headerFormat => "err:header-format"
+
+def o5mErrName : O5mErr → String
+  | .headerTooShort => "err:header-too-short"
+  | .wrongMagic => "err:wrong-magic"
+  | .premature => "err:premature"
+  | .varintTooLong => "err:varint-too-long"
+
+def runScript (o : O5mIn) : List String → List String → Option (List String)
+  | [], acc => some acc.reverse
+  | tok :: rest, acc =>
+    let n? := (tok.drop 1).toString.toNat?
+    match n? with
+    | none => none
+    | some n =>
+      if tok.startsWith "e" then
+        let (r, o') := o.ensure n
+        runScript o' rest (s!"r{b01 r}:{o'.consumed}:{hex o'.window}" :: acc)
+      else
+        let o' := o.advance (min n o.window.length)
+        runScript o' rest (s!"r1:{o'.consumed}:{hex o'.window}" :: acc)
+
+def step (line : String) : String :=
+  match words line with
+  | ["opl", cuts, h] =>
+    match parseCuts cuts, unhex h with
+    | some cs, some data =>
+      let ls := lineByLine (splitPieces data cs)
+      " ".intercalate (["L", toString ls.length] ++ ls.map hex)
+    | _, _ => "bad-op"
+  | ["pbf", cuts, h] =>
+    match parseCuts cuts, unhex h with
+    | some cs, some data =>
+      let (fs, e) := pbfFrames Osmium.PbfFraming.maxBlobHeaderSize Osmium.PbfFraming.maxUncompressedBlobSize
+        Osmium.PbfFraming.blobSize (splitPieces data cs)
+      " ".intercalate (["F", toString fs.length] ++ fs.map (fun (a, b) => hex a ++ ":" ++ hex b)
+        ++ (match e with | none => [] | some e => [pbfErrName e]))
+    | _, _ => "bad-op"
+  | ["o5m", cuts, script, h] =>
+    match parseCuts cuts, unhex h with
+    | some cs, some data =>
+      let o : O5mIn := { consumed := 0, window := [], src := { chunks := splitPieces data cs } }
+      match runScript o (script.splitOn ",") [] with
+      | some out => " ".intercalate out
+      | none => "bad-op"
+    | _, _ => "bad-op"
+  | ["o5mds", cuts, h] =>
+    match parseCuts cuts, unhex h with
+    | some cs, some data =>
+      let (ds, e) := o5mRun (splitPieces data cs)
+      " ".intercalate (["D", toString ds.length] ++ ds.map (fun d => match d with
+          | .reset => "R" | .other t => s!"O{t.toNat}" | .data t p => s!"{t.toNat}:{hex p}")
+        ++ (match e with | none => [] | some e => [o5mErrName e]))
+    | _, _ => "bad-op"
+  | ["xml", cuts, h] =>
+    match parseCuts cuts, unhex h with
+    | some cs, some data =>
+      let fs := xmlFeed (splitPieces data cs)
+      " ".intercalate (["X", toString fs.length] ++ fs.map (fun (a, b) => hex a ++ ":" ++ b01 b))
+    | _, _ => "bad-op"
+  | _ => "bad-op"
+
+def main : IO Unit := loopPure step
